@@ -256,6 +256,8 @@ def _fixed(s_repr, L):
 
 def conv_out(call, p, want, lib=None, model_out=None):
     kd = p["kind"]
+    if want == "null":
+        want = "s:0:"          # documented: a NULL char* result is a zero-length / blank value
     fl = call.get("flen", {})
     if kd in ("cstr_out", "str_ref_out", "str_ptr_out", "cstr_inout", "str_ref_inout", "str_ptr_inout"):
         return _fixed(want, fl[p["name"]])
